@@ -278,9 +278,10 @@ class MuSigTapScript(TapScript):
         return sum_1, sum_2
 
     def compute_coefficient(self, nonce_sums, sig_hash):
-        bytes_to_hash = (
-            nonce_sums[0].sec() + nonce_sums[1].sec() + self.point.xonly() + sig_hash
-        )
+        # a nonce sum can be the point at infinity (the participants' nonces cancel);
+        # it is then encoded as 33 zero bytes, as BIP327 does for the aggregate nonce
+        encoded = [n.sec() if n.x is not None else bytes(33) for n in nonce_sums]
+        bytes_to_hash = encoded[0] + encoded[1] + self.point.xonly() + sig_hash
         return big_endian_to_int(hash_musignonce(bytes_to_hash))
 
     def compute_k(self, nonce_secrets, nonce_sums, sig_hash):
